@@ -222,4 +222,66 @@ def crashStates (fs : FS) : List Op → List (Option Text)
 created (persistence.py:202-224) -/
 def cleanOps (files : List Name) : List Op := files.map Op.truncate
 
+/-! ## several data files rewritten by one `-r` -/
+
+/-- several data files, one temporary file at a time, one buffered write handle -/
+structure MFS where
+  inodes : List Text
+  datas : List (Option Nat)        -- data file j ↦ inode
+  tmp : Option Nat
+  handle : Option (Nat × Text)
+  cap : Nat
+  deriving Repr, DecidableEq
+
+/-- the operations of the repaired rewrite (persistence.py:253-262), on data file `i` -/
+inductive MOp
+  | create                 -- NamedTemporaryFile in the data file's directory
+  | write (t : Text)
+  | close
+  | replace (i : Nat)      -- os.replace(temp, data file i)
+  deriving Repr, DecidableEq
+
+def MFS.flushH (fs : MFS) : MFS :=
+  match fs.handle with
+  | some (i, buf) => { fs with inodes := fs.inodes.set i ((fs.inodes[i]?.getD []) ++ buf), handle := some (i, []) }
+  | none => fs
+
+def MFS.apply (fs : MFS) : MOp → MFS
+  | .create =>
+      { fs with inodes := fs.inodes ++ [[]], tmp := some fs.inodes.length, handle := some (fs.inodes.length, []) }
+  | .write t =>
+      match fs.handle with
+      | some (i, buf) =>
+          let fs' := { fs with handle := some (i, buf ++ t) }
+          if (buf ++ t).length > fs.cap then fs'.flushH else fs'
+      | none => fs
+  | .close => { fs.flushH with handle := none }
+  | .replace i => { fs with datas := fs.datas.set i fs.tmp, tmp := none }
+
+def MFS.run (fs : MFS) (ops : List MOp) : MFS := ops.foldl MFS.apply fs
+
+/-- on-disk contents of all data files -/
+def MFS.contents (fs : MFS) : List (Option Text) :=
+  fs.datas.map (fun d => match d with | some n => fs.inodes[n]? | none => none)
+
+def MFS.start (olds : List Text) (cap : Nat) : MFS :=
+  ⟨olds, (List.range olds.length).map some, none, none, cap⟩
+
+/-- one file's rewrite -/
+def fileOps (i : Nat) (out : List Text) : List MOp :=
+  [.create] ++ out.map MOp.write ++ [.close, .replace i]
+
+/-- the rewrites of one `-r` session: the data files that persist a selected run, one after the
+other (`DataStore.load_data`, persistence.py:54-56) -/
+def multiOps (rws : List (Nat × List Text)) : List MOp := rws.flatMap (fun p => fileOps p.1 p.2)
+
+/-- contents of all data files after each prefix of the operations -/
+def mcrashStates (fs : MFS) : List MOp → List (List (Option Text))
+  | [] => [fs.contents]
+  | o :: os => fs.contents :: mcrashStates (fs.apply o) os
+
+/-- the files switched to their new content so far -/
+def switched (cs : List (Option Text)) (rws : List (Nat × List Text)) : List (Option Text) :=
+  rws.foldl (fun l p => l.set p.1 (some p.2.flatten)) cs
+
 end RB.Rewrite
